@@ -403,7 +403,7 @@ int read_file_stdin(struct in_buffer** buffer,char* infile)
                 MMALLOC(tmp, sizeof(char) * (line_len+1));
                 for(i = 0; i < line_len;i++){
 
-                        if(iscntrl((int) line[i])){
+                        if(iscntrl((unsigned char)line[i])){
                                 break;
                         }
                         tmp[i] = line[i];
@@ -471,8 +471,10 @@ int read_fasta( struct in_buffer* b,struct msa** m)
 
                 }else{
                         for(i = 0;i < line_len;i++){
-                                msa->letter_freq[(int)line[i]]++;
-                                if(isalpha((int)line[i])){
+                                if((unsigned char)line[i] < 128){
+                                        msa->letter_freq[(unsigned char)line[i]]++;
+                                }
+                                if(isalpha((unsigned char)line[i])){
                                         if(!seq_ptr){
                                                 ERROR_MSG("Encountered a sequence before encountering it's name");
                                         }
@@ -481,7 +483,7 @@ int read_fasta( struct in_buffer* b,struct msa** m)
                                         if(seq_ptr->alloc_len == seq_ptr->len){
                                                 resize_msa_seq(seq_ptr);
                                         }
-                                }else if(ispunct((int)line[i])){
+                                }else if(ispunct((unsigned char)line[i])){
                                         seq_ptr->gaps[seq_ptr->len]++;
                                 }
                         }
@@ -532,7 +534,7 @@ int read_clu(struct in_buffer* b , struct msa** m)
                 if(!line_len){
                         active_seq = 0;
                 }else{
-                        if(!isspace(line[0])){
+                        if(!isspace((unsigned char)line[0])){
                                 if(msa->alloc_numseq == active_seq){
                                         RUN(resize_msa(msa));
                                 }
@@ -546,7 +548,7 @@ int read_clu(struct in_buffer* b , struct msa** m)
                                                 j = i;
                                                 break;
                                         }
-                                        if(isspace((int)p[i])){
+                                        if(isspace((unsigned char)p[i])){
                                                 j = i;
                                                 break;
                                         }
@@ -554,14 +556,16 @@ int read_clu(struct in_buffer* b , struct msa** m)
                                 }
                                 seq_ptr->name[j] = 0;
                                 for(i = j;i < line_len;i++){
-                                        msa->letter_freq[(int)p[i]]++;
-                                        if(isalpha((int)p[i])){
+                                        if((unsigned char)p[i] < 128){
+                                                msa->letter_freq[(unsigned char)p[i]]++;
+                                        }
+                                        if(isalpha((unsigned char)p[i])){
                                                 seq_ptr->seq[seq_ptr->len] = p[i];
                                                 seq_ptr->len++;
                                                 if(seq_ptr->alloc_len == seq_ptr->len){
                                                         resize_msa_seq(seq_ptr);
                                                 }
-                                        }else if(ispunct((int)p[i])){
+                                        }else if(ispunct((unsigned char)p[i])){
                                                 seq_ptr->gaps[seq_ptr->len]++;
                                         }
                                 }
@@ -612,7 +616,7 @@ int read_msf(struct in_buffer* b,struct msa** m)
                                 RUN(resize_msa(msa));
                         }
                         p += 5;  /* length of name: */
-                        while( isspace((int)*p)){
+                        while( isspace((unsigned char)*p)){
                                 p++;
                         }
                         /* LOG_MSG("Found name: %s len %d", p, strlen(p)); */
@@ -622,7 +626,7 @@ int read_msf(struct in_buffer* b,struct msa** m)
                                         seq_ptr->name[i] = 0;
                                         break;
                                 }
-                                if(isspace((int)p[i])){
+                                if(isspace((unsigned char)p[i])){
                                         seq_ptr->name[i] = 0;
                                         break;
                                 }
@@ -642,7 +646,7 @@ int read_msf(struct in_buffer* b,struct msa** m)
                 if(!line_len){
                         active_seq = 0;
                 }else{
-                        if(!isspace(line[0])){
+                        if(!isspace((unsigned char)line[0])){
                                 seq_ptr = msa->sequences[active_seq];
                                 //p = strstr(line,seq_ptr->name);
                                 //if(p){
@@ -651,15 +655,17 @@ int read_msf(struct in_buffer* b,struct msa** m)
                                 j = strnlen(seq_ptr->name, MSA_NAME_LEN);
                                 p += j;
                                 for(i = 0;i < line_len-j;i++){
-                                        msa->letter_freq[(int)p[i]]++;
-                                        if(isalpha((int)p[i])){
+                                        if((unsigned char)p[i] < 128){
+                                                msa->letter_freq[(unsigned char)p[i]]++;
+                                        }
+                                        if(isalpha((unsigned char)p[i])){
 
                                                 seq_ptr->seq[seq_ptr->len] = p[i];
                                                 seq_ptr->len++;
                                                 if(seq_ptr->alloc_len == seq_ptr->len){
                                                         resize_msa_seq(seq_ptr);
                                                 }
-                                        }else if(ispunct((int)p[i])){
+                                        }else if(ispunct((unsigned char)p[i])){
                                                 seq_ptr->gaps[seq_ptr->len]++;
                                         }
                                 }
